@@ -93,7 +93,7 @@ R1Lower(p) == [fn |-> p.r.fn,
                         \o [i \in 1..Len(p.r.eargs) |-> [k |-> "extra", v |-> p.r.eargs[i]]]]
 
 (* ---------- R2: bool casts ---------- *)
-IntTypes == {"int", "int8", "uint8", "int64", "uint"}
+IntTypes == {"int", "int8", "uint8", "int64", "uint", "float64", "float32", "complex128"}   \* every numeric target the cast accepts
 BoolForms == {"true", "false", "var", "named", "cmp"}          \* constants, a bool variable, a variable of a defined bool type, vi == 1
 R2Points == {[rule |-> "boolcast", ty |-> t, b |-> f] : t \in IntTypes, f \in BoolForms}
 R2Lower(p) == IF p.b \in {"true", "false"} THEN [form |-> "const", ty |-> p.ty, v |-> IF p.b = "true" THEN 1 ELSE 0]
@@ -143,11 +143,13 @@ R6Lower(p) == [temps |-> Temps(p),
 \*   an iterator function  func(yield func([K[, V]]) bool)          |->  for k, v := range x.XGo_Enum() { body }
 \*   a value with Next() (elem, ok) or (key, elem, ok)            |->  for it := x.XGo_Enum(); ; { var ok bool; k, v, ok = it.Next(); if !ok { break }; body }
 \* The loop visits exactly the sequence the enumerator yields, binding the loop variables per iteration; break leaves the loop.
-EnumStyles == {"next2", "next3", "ptrnext2", "iter0", "iter1", "iter2"}
-Vals(st) == CASE st \in {"next2", "ptrnext2", "iter1"} -> 1 [] st \in {"next3", "iter2"} -> 2 [] OTHER -> 0
+\* iter1s / next2i: the enumerator is declared on a type that Go can range over natively (a slice type, an integer type):
+\* the enumerator wins
+EnumStyles == {"next2", "next3", "ptrnext2", "iter0", "iter1", "iter2", "iter1s", "next2i"}
+Vals(st) == CASE st \in {"next2", "ptrnext2", "iter1", "iter1s", "next2i"} -> 1 [] st \in {"next3", "iter2"} -> 2 [] OTHER -> 0
 \* blank-k is `for _ = range x`: an assignment to the blank identifier (only meaningful for the Next() styles, which lower to an assignment)
 VarForms(st) == {"none"} \cup (IF Vals(st) >= 1 THEN {"define-k", "assign-k"} ELSE {})
-                         \cup (IF st \in {"next2", "next3", "ptrnext2"} THEN {"blank-k"} ELSE {})
+                         \cup (IF st \in {"next2", "next3", "ptrnext2", "next2i"} THEN {"blank-k"} ELSE {})
                          \cup (IF Vals(st) = 2 THEN {"define-kv", "assign-kv", "blank-k-define-v"} ELSE {})
 R7Points == UNION {{[rule |-> "enum", style |-> st, vars |-> vf, brk |-> b] : vf \in VarForms(st), b \in BOOLEAN} : st \in EnumStyles}
 \* the enumerators of the fixture yield 3 elements; a body with break stops after the second
@@ -158,10 +160,12 @@ R7Lower(p) == [iterations |-> IF p.brk THEN 2 ELSE 3, binds |-> CASE p.vars \in 
 \* before the body; the body runs once; `return e..` delivers e.. as the values of the call and leaves the inlined body;
 \* the statements after the call see the results.  Observable behaviour must equal that of the real closure call.
 R8Points == {[rule |-> "inline", np |-> np, variadic |-> va, nvar |-> nv, nres |-> nr, body |-> b] :
-               np \in 0..2, va \in BOOLEAN, nv \in 0..2, nr \in 0..2, b \in {"plain", "early", "unused"}}
-            \ {p \in [rule : {"inline"}, np : 0..2, variadic : BOOLEAN, nvar : 0..2, nres : 0..2, body : {"plain", "early", "unused"}] :
-                  (~p.variadic /\ p.nvar > 0) \/ (p.variadic /\ p.np = 0) \/ (p.body = "unused" /\ (p.np = 0 \/ p.nres > 0))}
-\* body "plain" / "early" use every parameter; "unused" uses none (a closure need not use its parameters)
+               np \in 0..2, va \in BOOLEAN, nv \in 0..2, nr \in 0..2, b \in {"plain", "early", "unused", "mutate"}}
+            \ {p \in [rule : {"inline"}, np : 0..2, variadic : BOOLEAN, nvar : 0..2, nres : 0..2, body : {"plain", "early", "unused", "mutate"}] :
+                  (~p.variadic /\ p.nvar > 0) \/ (p.variadic /\ p.np = 0) \/ (p.body = "unused" /\ (p.np = 0 \/ p.nres > 0))
+                  \/ (p.body = "mutate" /\ (p.np = 0 \/ p.variadic \/ p.nres = 2))}
+\* body "plain" / "early" use every parameter; "unused" uses none (a closure need not use its parameters);
+\* "mutate": the first argument is a plain variable, the body assigns to that variable and to its parameter - the parameter is a copy
 \* number of argument expressions of the call
 NArgs(p) == IF p.variadic THEN p.np - 1 + p.nvar ELSE p.np
 R8Lower(p) == [argevals |-> NArgs(p), returns |-> IF p.body = "early" THEN 2 ELSE 1]
